@@ -1096,7 +1096,7 @@ fn lower_expr_with_args(
                 return None;
             }
             Some(ast::Expr::EString {
-                value: value.to_string(),
+                value: unescape_str(value),
                 astptr,
             })
         }
@@ -1799,6 +1799,61 @@ fn lower_expr_with_args(
     }
 }
 
+/// Decode the escape sequences the lexer accepts inside a string literal
+/// (`\"` `\\` `\/` `\b` `\f` `\n` `\r` `\t` `\uXXXX`, surrogate pairs included).
+fn unescape_str(raw: &str) -> String {
+    let mut out = String::with_capacity(raw.len());
+    let mut chars = raw.chars().peekable();
+    while let Some(c) = chars.next() {
+        if c != '\\' {
+            out.push(c);
+            continue;
+        }
+        match chars.next() {
+            Some('"') => out.push('"'),
+            Some('\\') => out.push('\\'),
+            Some('/') => out.push('/'),
+            Some('b') => out.push('\u{8}'),
+            Some('f') => out.push('\u{c}'),
+            Some('n') => out.push('\n'),
+            Some('r') => out.push('\r'),
+            Some('t') => out.push('\t'),
+            Some('u') => {
+                let mut read_unit = |chars: &mut std::iter::Peekable<std::str::Chars<'_>>| {
+                    let hex: String = chars.by_ref().take(4).collect();
+                    u32::from_str_radix(&hex, 16).ok()
+                };
+                let decoded = match read_unit(&mut chars) {
+                    Some(hi @ 0xD800..=0xDBFF) => {
+                        // a high surrogate must be followed by `\uDC00`..`\uDFFF`
+                        let mut ahead = chars.clone();
+                        if ahead.next() == Some('\\') && ahead.next() == Some('u') {
+                            match read_unit(&mut ahead) {
+                                Some(lo @ 0xDC00..=0xDFFF) => {
+                                    chars = ahead;
+                                    char::from_u32(0x10000 + ((hi - 0xD800) << 10) + (lo - 0xDC00))
+                                }
+                                _ => None,
+                            }
+                        } else {
+                            None
+                        }
+                    }
+                    Some(unit) => char::from_u32(unit),
+                    None => None,
+                };
+                out.push(decoded.unwrap_or('\u{fffd}'));
+            }
+            Some(other) => {
+                out.push('\\');
+                out.push(other);
+            }
+            None => out.push('\\'),
+        }
+    }
+    out
+}
+
 fn apply_trailing_args(
     ctx: &mut LowerCtx,
     expr: ast::Expr,
@@ -2019,7 +2074,7 @@ fn lower_pat(ctx: &mut LowerCtx, node: cst::Pattern) -> Option<ast::Pat> {
                 return None;
             };
             Some(ast::Pat::PString {
-                value: value.to_string(),
+                value: unescape_str(value),
                 astptr,
             })
         }
